@@ -825,7 +825,7 @@ CORPUS = [
     # D27: Node.find_all(data / data_id, max_results=k) ignored the limit
     dict(univ=["s:a", "s:b"], calc=None, typed=False, mode="full", ks=[-1, 1, 2],
          nodes=[[0, None, None, [[1, None, None, [], None], [0, None, "y", [[1, None, None, [], None]], None]], None]], ops=[]),
-    # D44: Node.find_all(0) / find_all(data_id=0) / find_all("") tested truthiness
+    # D46: Node.find_all(0) / find_all(data_id=0) / find_all("") tested truthiness
     dict(univ=["i:0", "s:", "s:a"], calc=None, typed=False, mode="full", ks=[-1, 1],
          nodes=[[2, None, None, [[0, None, None, [], None], [1, None, None, [], None], [2, None, 0, [], None]], None]], ops=[]),
 ]
